@@ -28,7 +28,9 @@ func (m *c16M) cond(f *c16Frame, e ast.Expr) bool {
 	case bool:
 		return v
 	case *c16Opq:
-		return m.choose("cond "+src(m.p.Fset, e)+" @"+m.pos(e), 2) == 1
+		b := m.choose("cond "+src(m.p.Fset, e)+" @"+m.pos(e), 2) == 1
+		m.decided(v, b)
+		return b
 	default:
 		m.abort("condition is %T at %s", v, m.pos(e))
 	}
@@ -46,11 +48,24 @@ func (m *c16M) evalBinary(f *c16Frame, x *ast.BinaryExpr) c16Val {
 func (m *c16M) binop(op token.Token, l, r c16Val, t types.Type, at ast.Node) c16Val {
 	switch op {
 	case token.EQL, token.NEQ:
+		_, lsym := l.(*c16Sym)
+		_, rsym := r.(*c16Sym)
+		if lsym || rsym {
+			if v, ok := m.symBinop(op, l, r, t); ok {
+				return v
+			}
+		}
 		eq, known := c16Equal(l, r)
 		if !known {
-			return &c16Opq{typ: t, why: "comparison with an opaque value"}
+			deps := map[string]bool{}
+			c16DepsOf(l, deps)
+			c16DepsOf(r, deps)
+			return &c16Opq{typ: t, why: "comparison with an opaque value", deps: deps}
 		}
 		return eq == (op == token.EQL)
+	}
+	if v, ok := m.symBinop(op, l, r, t); ok {
+		return v
 	}
 	if c16IsOpq(l) || c16IsOpq(r) {
 		return &c16Opq{typ: t, why: "arithmetic on an opaque value"}
